@@ -58,3 +58,7 @@ Definition ex_set : settings :=
               (mk_dreg (mk_derives [("Debug", ["Debug"]); ("Clone", ["Clone"])] []) [] [])
               [] None None (Some [":"; ":"; "parity"; ":"; ":"; "Compact"]) true
               (ACustom [":"; ":"; "alloc"]).
+
+Definition ex_teq : N -> N -> result bool := types_equal ex_reg.
+Definition has (w : string) (t : tokens) : bool := existsb (String.eqb w) t.
+Definition ex_flat : flat_registry := mk_flat (dr_default (s_dreg ex_set)) [].
